@@ -176,6 +176,27 @@ fn run_case(template: &Machine, init: &Init, n: usize, rep: &mut Report) -> (u64
         let mut lock = Lock::new(m);
         let mut checked = 0u64;
         for k in 0..n {
+            if n > 1 && k % 97 == 41 {
+                // a CPU reset in the middle of a run: exactly one step (the opcode fetch at
+                // address 0) leads to the first boundary, whatever was going on before
+                let mut r = lock.m.clone();
+                // advance a few edges so that the reset lands at an arbitrary phase
+                for _ in 0..(k % 7) {
+                    real::edge(&mut r);
+                }
+                r.cpu_reset();
+                let mut edges = 0;
+                verif::set_fuel(Some(real::FUEL_PER_INSTRUCTION));
+                while !r.is_instruction_done() && r.state() == State::Running {
+                    real::edge(&mut r);
+                    edges += 1;
+                }
+                verif::set_fuel(None);
+                local.inc("resets_costed");
+                if r.state() == State::Running && edges != 1 {
+                    return (checked, Some(Viol("C15:reset-to-first-fetch".into(), format!("{} clock edges from a CPU reset to the first opcode fetch, expected 1", edges), k)), local);
+                }
+            }
             let first = lock.m.bus().read(lock.cpu.r[3]);
             let out = isa::step(&mut lock.cpu, &mut lock.bus);
             if let Outcome::Undefined { .. } = out {
